@@ -83,22 +83,23 @@ def check_property(prop, tier, seed, learn=False):
     for name, f in sorted(getattr(reg, "syntactic", {}).items()):
         if prop in f.props:
             extra.append((name, f))
-    undecided, obls, uinfo = [], [], []
-    assumed, bounded, inlined = set(), [], set()
-    for q, N in units:
-        try:
-            u, ob = verify(ct, reg, q, N, tier)
-        except Unsupported as ex:
-            undecided.append("%s%s: %s" % (q, "[%s]" % N if N else "", ex))
-            continue
-        keep = [o for o in ob if prop in o.props or o.kind == "canary"]
-        obls += keep
-        assumed |= u.assumed
-        bounded += u.bounded
-        inlined |= u.inlined
-        sha, src = ct.files[u.file]
-        uinfo.append({"function": u.uid, "file": u.file, "sha256": sha[:16], "span": ct.span(u.fdef),
-                      "obligations": len([o for o in keep if o.kind != "canary"]), "calls_by_contract": sorted(u.called)})
+    repo = os.environ.get("PYVC_REPO")
+    obls, infos, undecided, crashes = solve.generate([(q, N, prop, tier, repo) for q, N in units])
+    if crashes:
+        for c in crashes:
+            print(c)
+        print("CHECKER-ERROR property=%s: the obligation generator crashed on %d unit(s) (not a verdict)" % (prop, len(crashes)))
+        return 3
+    uinfo = []
+    assumed, bounded, inlined, inferred = set(), [], set(), set()
+    for r in infos:
+        assumed |= set(r["assumed"])
+        bounded += r["bounded"]
+        inlined |= set(r["inlined"])
+        inferred |= set(r.get("inferred", []))
+        uinfo.append({"function": r["uid"], "file": r["file"], "sha256": r["sha"], "span": r["span"],
+                      "obligations": len([o for o in r["obls"] if o["kind"] != "canary"]), "calls_by_contract": r["called"],
+                      "generation_s": round(r.get("gen_s", 0), 2)})
     tm = {"quick": (20000, ((40000, 1),), True), "thorough": (60000, ((120000, 1), (120000, 7)), True)}[tier]
     solve.discharge(obls, timeout_ms=tm[0], seed=seed, retries=tm[1], use_cvc5=tm[2], learn=learn)
     # syntactic obligations (effect whitelist, symbol absence ...): decided without a solver
@@ -144,7 +145,7 @@ def check_property(prop, tier, seed, learn=False):
     samples = []
     for o in sorted(real, key=lambda o: -o.time)[:3] + real[:3]:
         samples.append({"obligation": o.site, "path": o.trail.strip(), "status": o.status, "backend": o.backend,
-                        "seconds": round(o.time, 2), "hypotheses": len(o.hyps) + len(o.bg), "smt_bytes": len(o.smt or "")})
+                        "seconds": round(o.time, 2), "hypotheses": o.nhyp, "smt_bytes": len(o.smt or "")})
     for r in syn_results[:3]:
         samples.append({"obligation": r["id"], "status": "proved" if r["ok"] else "failed", "backend": "syntactic"})
     status = 0
@@ -203,6 +204,7 @@ def check_property(prop, tier, seed, learn=False):
             "solver_seconds": round(sum(o.time for o in obls), 1),
             "bounded": bounded,
             "inlined_helpers": sorted(inlined),
+            "field_types_inferred_from_source": sorted(inferred),
             "known_finding_obligations": {k: len(v[1]) for k, v in known_hit.items()},
             "undecided": undecided,
             "vacuity_canaries": {"checked": len(canaries), "provable_false": len(vacuous)},
